@@ -196,6 +196,14 @@ Step choose_step(HState const &h, Rng &rng, HOpts const &o){
             break;
         default: break;
     }
+    // Gauss-Patterson is tabulated up to level 8: a step that could ask for level 9 fails with the documented runtime_error (C14's subject),
+    // so every generating step on such a grid carries limits of at most 8
+    if (fam == fam_global && !h.cfg.custom && g.getRule() == rule_gausspatterson
+        && (s.kind == Step::aniso || s.kind == Step::surplus_seq || s.kind == Step::update || s.kind == Step::cand_load)){
+        if (s.limits.empty()) s.limits.assign((size_t) dims, 8);
+        for(auto &l : s.limits) if (l < 0 || l > 8) l = 8;
+        if (s.kind == Step::update) s.depth = std::min(s.depth, 8);
+    }
     return s;
 }
 
